@@ -56,6 +56,11 @@ ASSUME LawYPR
 ASSUME LawBranches
 ASSUME LawHurwitz
 ASSUME LawPredicates
+ASSUME \A a \in IntQuats(-2..2) : LawIntQuat(a, <<1, -2, 0, 1>>) /\ LawIntQuat(a, <<0, 1, 1, -1>>)
+ASSUME \A a \in IntQuats(-1..1), b \in IntQuats(-1..1) : LawIntQuat(a, b)
+\* every branch is reached with every one of its terms non-zero
+ASSUME \A br \in {"trace", "x-largest", "y-largest", "z-largest"} : \E a \in IntQuats(-2..2) :
+          /\ QuatBranch(QMat4(a)) = br /\ \A i \in 1..4 : a[i] # 0
 \* sharpness: the laws are not vacuous - a transposed adjoint or a wrong cofactor sign is refuted on the lattice
 ASSUME \E M \in M3 : Mul(M, Transpose(Adj(M))) # SMul(Det(M), Ident(3))
 ASSUME \E M \in M3, N \in Partner3 : Det(MAdd(M, N)) # Det(M) + Det(N)
